@@ -146,6 +146,13 @@ func run() int {
 			jobs = len(sel)
 		}
 	}
+	workersPerHarness = runtime.NumCPU() / len(sel)
+	if workersPerHarness < 1 {
+		workersPerHarness = 1
+	}
+	if *flagTrace {
+		workersPerHarness = 1
+	}
 	results := make([]*HarnessResult, len(sel))
 	sem := make(chan struct{}, jobs)
 	var wg sync.WaitGroup
@@ -218,6 +225,27 @@ func run() int {
 		fmt.Printf("harness %-28s %-12s paths=%d states=%d queries(sat=%d unsat=%d unk=%d err=%d) solver=%.1fs wall=%.1fs native-agree=%d\n",
 			r.H.Name, st, np, ns, r.Solver.Sat, r.Solver.Unsat, r.Solver.Unknown, r.Solver.Errors, r.Solver.Time.Seconds(), r.Wall.Seconds(), r.NativeOK)
 	}
+	if *flagVerbose {
+		for _, r := range results {
+			if r.Res == nil {
+				continue
+			}
+			type kv struct {
+				k string
+				v int
+			}
+			var l []kv
+			for k, v := range r.Res.ForkSites {
+				l = append(l, kv{k, v})
+			}
+			sort.Slice(l, func(i, j int) bool { return l[i].v > l[j].v })
+			for i, x := range l {
+				if i < 25 {
+					fmt.Printf("  forks %-8d %s\n", x.v, x.k)
+				}
+			}
+		}
+	}
 	if len(problems) > 0 && violations == 0 {
 		for _, l := range lines {
 			if strings.HasPrefix(l, "KNOWN-FINDING") {
@@ -238,6 +266,8 @@ func run() int {
 	fmt.Printf("PASS property=%s tier=%s harnesses=%d wall=%.1fs\n", prop, tier, len(sel), time.Since(t0).Seconds())
 	return 0
 }
+
+var workersPerHarness = 1
 
 func firstLine(s string) string {
 	if i := strings.IndexByte(s, '\n'); i >= 0 {
@@ -293,12 +323,20 @@ func runHarness(ld *Loaded, h *Harness, tier string, seed int) *HarnessResult {
 	if tier == "thorough" {
 		timeout = 120000
 	}
-	solver, err := smt.NewSolver("z3", timeout)
-	if err != nil {
-		r.Err = "solver: " + err.Error()
-		return r
+	nw := workersPerHarness
+	if w := h.Int("workers", tier, 0); w > 0 {
+		nw = w
 	}
-	defer solver.Close()
+	var solvers []*smt.Solver
+	for i := 0; i < nw; i++ {
+		s, err := smt.NewSolver("z3", timeout)
+		if err != nil {
+			r.Err = "solver: " + err.Error()
+			return r
+		}
+		defer s.Close()
+		solvers = append(solvers, s)
+	}
 	sp := ld.SSAPkg(h.PkgDir)
 	if sp == nil {
 		r.Err = "package not loaded: " + h.PkgDir
@@ -317,12 +355,15 @@ func runHarness(ld *Loaded, h *Harness, tier string, seed int) *HarnessResult {
 	}
 	budget := time.Duration(h.Int("budget", tier, 300)) * time.Second
 	cfg.Deadline = time.Now().Add(budget)
-	eng := symex.NewEngine(ld.Prog, sp, solver, cfg)
-	eng.Tier = tier
-	eng.Trace = *flagTrace
-	res := eng.Run(fn)
+	res := symex.Explore(ld.Prog, sp, fn, cfg, solvers, tier, *flagTrace)
 	r.Res = res
-	r.Solver = solver.Stats
+	for _, s := range solvers {
+		r.Solver.Sat += s.Stats.Sat
+		r.Solver.Unsat += s.Stats.Unsat
+		r.Solver.Unknown += s.Stats.Unknown
+		r.Solver.Errors += s.Stats.Errors
+		r.Solver.Time += s.Stats.Time
+	}
 	r.Wall = time.Since(t0)
 	if len(res.Inconclusive) > 0 {
 		r.Err = strings.Join(res.Inconclusive, "; ")
